@@ -11,7 +11,7 @@ LEX = {
     "ContentMedia": ["media"], "ContentHeaders": ["headers"], "ContentStatus": ["status"],
     "KeywordLet": ["let"], "KeywordRes": ["res"], "KeywordUse": ["use"], "KeywordAs": ["as"], "KeywordOn": ["on"], "KeywordRec": ["rec"],
     "IdentifierValue": ["x", "abc", "a-b$_9", "_"], "IdentifierReference": ["@r", "@a-b_1$"],
-    "LiteralNumber": ["0", "200", "18446744073709551615"], "LiteralString": ['""', '"s"', '"é€\U0001F600"', '"a\nb"'],
+    "LiteralNumber": ["0", "200", "18446744073709551615", "18446744073709551616", "123456789012345678901234567890"], "LiteralString": ['""', '"s"', '"é€\U0001F600"', '"a\nb"'],
     "LiteralHttpStatus": ["4XX", "2XX"], "Property": ["'p", "'a-b$@_1"],
     "ControlBraceLeft": ["{"], "ControlBraceRight": ["}"], "ControlParenLeft": ["("], "ControlParenRight": [")"],
     "ControlBracketLeft": ["["], "ControlBracketRight": ["]"], "ControlChevronLeft": ["<"], "ControlChevronRight": [">"],
